@@ -38,7 +38,9 @@ def expected_dependees(step, out_name, tok):
     """Tokens the step consumed to emit ``tok`` on output ``out_name`` (or None = not modelled)."""
     ins = step.get_input_ports()
     T = tok.tag
-    if isinstance(step, (Transformer, ConditionalStep)):
+    from .engine import SimParallel
+
+    if isinstance(step, (Transformer, ConditionalStep, SimParallel)):
         ins = {k: v for k, v in ins.items() if k != "__job__"}
         return [t for p in ins.values() for t in _data(p) if t.tag == T]
     if isinstance(step, ScatterStep):
@@ -47,6 +49,9 @@ def expected_dependees(step, out_name, tok):
     if isinstance(step, GatherStep):
         depth = step.depth
         size = [t for t in _data(step.get_size_port()) if t.tag == T]
+        if not size and T in step.size_map:
+            # size unknown: the step records the size token it created itself at the forced gather
+            size = [step.size_map[T]]
         elems = [t for t in _data(step.get_input_port()) if ".".join(t.tag.split(".")[:-depth]) == T]
         return size + elems
     if isinstance(step, CombinatorStep):
